@@ -14,18 +14,24 @@ structure EncSane (E : Enc σ) : Prop where
   produced_le : ∀ s op inp cap, (E.step s op inp cap).2.produced.length ≤ cap
 
 /-- a call whose caller will call again unless something moved: PROCESS with input on offer,
-FINISH that did not reach `is_finished`, FLUSH that left `has_more_output` -/
+FINISH (no input) that did not reach `is_finished`, FLUSH (no input) that left `has_more_output` -/
 def Demanded (E : Enc σ) (s' : σ) (op : Op) (inp : Bytes) : Prop :=
-  (op = .process ∧ inp ≠ []) ∨ (op = .finish ∧ E.isFinished s' = false) ∨ (op = .flush ∧ E.hasMore s' = true)
+  (op = .process ∧ inp ≠ []) ∨ (op = .finish ∧ inp = [] ∧ E.isFinished s' = false) ∨
+  (op = .flush ∧ inp = [] ∧ E.hasMore s' = true)
 
-/-- the encoder cannot stall: a successful demanded call with output room that consumed no
-input strictly decreases a rank of the encoder state (think: pending output bytes, then bytes
-still to be encoded, then "final block not yet emitted").  Calls that consume input may change
-the rank arbitrarily. -/
-structure EncProgress (E : Enc σ) (rank : σ → Nat) : Prop where
-  stall : ∀ s op inp cap, 0 < cap → (E.step s op inp cap).2.ok = true →
+/-- the encoder cannot stall on the request kinds in `ops`: a successful demanded call with output
+room that consumed no input strictly decreases a rank of the encoder state (think: pending output
+bytes, then "an encode is still due").  Calls that consume input may change the rank arbitrarily.
+Each adapter loop needs it only for the operations it issues (`write`: PROCESS; `flush`: FLUSH;
+`into_inner`: FINISH; `read` and the copy function: PROCESS and FINISH), and different request
+kinds may use different ranks. -/
+structure EncProgress (E : Enc σ) (ops : Op → Prop) (rank : σ → Nat) : Prop where
+  stall : ∀ s op inp cap, ops op → 0 < cap → (E.step s op inp cap).2.ok = true →
     (E.step s op inp cap).2.consumed = 0 → Demanded E (E.step s op inp cap).1 op inp →
     rank (E.step s op inp cap).1 < rank s
+
+/-- every request kind -/
+def allOps : Op → Prop := fun _ => True
 
 /-! ### ghost-log vocabulary (logs are stored newest first) -/
 
@@ -76,14 +82,14 @@ theorem toy_sane : EncSane toyEnc := by
 
 def toyRank (s : Toy) : Nat := s.pending.length + (if s.marked then 0 else 2)
 
-theorem toy_progress : EncProgress toyEnc toyRank := by
+theorem toy_progress : EncProgress toyEnc allOps toyRank := by
   constructor
-  intro s op inp cap hcap _ hcons hdem
+  intro s op inp cap _ hcap _ hcons hdem
   have hinp : inp = [] := by
     have : inp.length = 0 := by simpa [toyEnc] using hcons
     exact List.eq_nil_of_length_eq_zero this
   subst hinp
-  rcases hdem with ⟨_, h⟩ | ⟨hop, h⟩ | ⟨hop, h⟩
+  rcases hdem with ⟨_, h⟩ | ⟨hop, _, h⟩ | ⟨hop, _, h⟩
   · exact absurd rfl h
   · subst hop
     cases hm : s.marked
